@@ -1,0 +1,38 @@
+//go:build verif
+
+package tsdb
+
+import (
+	"context"
+	"errors"
+
+	"github.com/lindb/lindb/models"
+)
+
+// VerifFlushDatabaseSync runs the flush jobs which Database.Flush (Engine.FlushDatabase, the flush rpc and
+// the periodic check) hands to the workers of the data flush checker - dataFlushChecker.doFlush: database
+// metadata -> shard index -> family data, per shard - on the caller's goroutine instead of a worker
+// goroutine. The requests are built exactly as Database.Flush builds them. Build tag verif only.
+func VerifFlushDatabaseSync(d Database) error {
+	db, ok := d.(*database)
+	if !ok {
+		return errors.New("not a tsdb database")
+	}
+	fc := newDataFlushChecker(context.Background()).(*dataFlushChecker)
+	defer fc.cancel()
+	for _, shardEntry := range db.shardSet.Entries() {
+		shard := shardEntry.shard
+		fc.flushInFlight.Inc()
+		fc.doFlush(&flushRequest{
+			db: db,
+			shards: map[models.ShardID]*flushShard{
+				shard.ShardID(): {
+					shard:    shard,
+					families: GetFamilyManager().GetFamiliesByShard(shard),
+				},
+			},
+			global: false,
+		})
+	}
+	return nil
+}
